@@ -32,3 +32,4 @@ def check(rep, tier, replay=None):
     splines.check_q2(rep, idx)
     splines.check_s4(rep, idx, idx_cs, ["BSpline::operator()"])
     splines.check_s5_bspline(rep, idx)
+    splines.check_x1(rep, idx_cs)
